@@ -27,7 +27,7 @@ CLAIMED = {
     'C14': dict(
         engine='M (mirsym over rustc MIR + z3)',
         technique='path-wise symbolic execution of the MIR of hash_to_point with the SHAKE-256 reader stubbed by a fully symbolic byte stream; per-path equality with Algorithm 3 decided by z3; counterexamples replayed natively on a message found by search',
-        text='Every accept/reject interleaving of the rejection loop inside the bound (n <= 8 quick / 16 thorough, <= 1..4 rejections) is explored with ALL XOF streams symbolic; on each path the returned '
+        text='Every accept/reject interleaving of the rejection loop inside the bound (n <= 8 quick / 16 thorough, up to 6 / 8 rejected chunks at n = 1, fewer at larger n) is explored with ALL XOF streams symbolic; on each path the returned '
              'coefficients and their number must equal Algorithm 3 on that stream (the first n accepted chunks, reduced; squeezing the XOF ahead of need is not observable and allowed), every coefficient < q, and the XOF must have absorbed exactly the input once.',
         note='SHAKE-256 (sha3 crate) is trusted: its output is modelled as arbitrary bytes (sound over-approximation). n = 512/1024 differ only in loop trip count and are outside the bound.',
         design='DESIGN.md §4 C14'),
